@@ -1,6 +1,7 @@
 use super::super::bounds::get_bounded_slice;
 use super::super::reader::{ByteReader, Cursor};
 use super::super::types::ParseResult;
+use super::alpha_bytes;
 use crate::types::*;
 
 pub fn parse_raw1<'a>(
@@ -20,8 +21,7 @@ pub fn parse_raw1<'a>(
         let n = blp_header.mipmap_pixels(i);
         let indexed_rgb = reader.read_bytes(n as usize)?;
 
-        let an = (n * blp_header.alpha_bits()).div_ceil(8);
-        let indexed_alpha = reader.read_bytes(an as usize)?;
+        let indexed_alpha = reader.read_bytes(alpha_bytes(n, blp_header.alpha_bits())?)?;
 
         images.push(Raw1Image {
             indexed_rgb,
